@@ -2,6 +2,7 @@ package main
 
 import (
 	"fmt"
+	"go/ast"
 	"go/types"
 	"strings"
 
@@ -182,10 +183,14 @@ func (f *Frame) assumeParam(prm *ssa.Parameter, v Val) {
 	switch sortOfType(prm.Type()) {
 	case "Slice":
 		s.fact(app("<", sliceField("s.ref", sv.T), s.alloc0))
+		s.extRefs = append(s.extRefs, sliceField("s.ref", sv.T))
 	case "Int":
 		switch prm.Type().Underlying().(type) {
 		case *types.Pointer, *types.Map, *types.Chan:
 			s.fact(app("<", sv.T, s.alloc0))
+			if _, isMap := prm.Type().Underlying().(*types.Map); isMap {
+				s.extRefs = append(s.extRefs, sv.T)
+			}
 			if f.fn.Signature.Recv() != nil && prm == f.fn.Params[0] {
 				s.fact(app(">", sv.T, "0"))
 				s.recvRef = sv.T
@@ -346,6 +351,30 @@ func (f *Frame) checkPost(rs []Val, pos string) {
 	add := func(o *Obligation) {
 		s.addObl(o)
 		o.Watch = append(o.Watch, extraWatch...)
+	}
+	if ast.IsExported(f.fn.Name()) {
+		// representation exposure: an exported function returns slices/maps that are fresh, nil, or the caller's own
+		for i, n := range resultNames(f.fn.Signature) {
+			sv, ok := rs[i].(S)
+			if !ok {
+				continue
+			}
+			var ref string
+			switch sv.Ty.Underlying().(type) {
+			case *types.Slice:
+				ref = sliceField("s.ref", sv.T)
+			case *types.Map:
+				ref = sv.T
+			default:
+				continue
+			}
+			ds := []string{app(">=", ref, s.alloc0), eq(ref, "0")}
+			for _, er := range s.extRefs {
+				ds = append(ds, eq(ref, er))
+			}
+			add(&Obligation{Name: fmt.Sprintf("%s#prov.result(%s)", c.Key(), n), Kind: "prov", Guard: f.cur.reach, Goal: or(ds...), Pos: pos,
+				Clause: "an exported function does not hand out a slice or map that belongs to an existing item or message"})
+		}
 	}
 	for k, cl := range c.Ensures {
 		goal := f.evalClause(cl, f.cur.heap, s.entry, env)
